@@ -209,13 +209,24 @@ def r4(ctx):
     def enc(d):
         return vals["onehot"] >> (d - 1)
 
+    loops = [p for p in _parents(acks[0], bits.node) if isinstance(p, (ast.For, ast.While))]
+    scope = loops[0].body if loops else bits.node.body
+
     def dec(d, word):
-        """evaluate the decoder's ack test for offset d and bitmap `word` with the interval explorer (singleton cells)"""
-        ex = Explorer(folder, bits, sym={"%s.ack_bits" % hp: Iv(word)}, strict=(dv,))
-        res = ex.branch(test, {dv: Iv(d)})
-        vs = {b for (_, b, lab) in res if lab is None}
-        if len(res) != 1 or len(vs) != 1:
-            raise Undecided("ack test is not definitive for offset %d: %r" % (d, res))
+        """does the per-datagram code reach _handle_ack for offset d and bitmap `word`?  The body of the loop over the pending
+        datagrams is explored on singleton cells (every test on the offset and the bitmap is definitive); however the ack
+        test is spelled - one condition, nested ifs, several call sites - the answer is whether a path calls _handle_ack"""
+        def hook(call, args, env):
+            if isinstance(call.func, ast.Attribute) and call.func.attr == "diff" and norm(call.func.value) == "%s.ack" % hp:
+                return Iv(d)
+            return None
+        ex = Explorer(folder, bits, sym={"%s.ack_bits" % hp: Iv(word)}, call_hook=hook, strict=(dv,))
+        ex.outcomes = []
+        rest = ex._block(scope, [({}, [], [])])
+        evs = [o.events for o in ex.outcomes] + [ev for (_e, _p, ev) in rest]
+        vs = {any("_handle_ack(" in e for e in ev) for ev in evs}
+        if len(vs) != 1:
+            raise Undecided("ack decision is not definitive for offset %d, bitmap %x" % (d, word))
         return vs.pop()
     bad = []
     n = 0
@@ -258,11 +269,11 @@ def r4(ctx):
             ok = bool(outs)
             for o in outs:
                 ev = [canon(e) for e in o.events]
+                final = bits_after(ev)
                 if want_shift:
-                    ok = ok and any(e == "self.bits >>= -diff" for e in ev) and any(e == "self.bits |= self.onehot >> -diff - 1" for e in ev) \
-                        and ev.index("self.bits >>= -diff") < max(i for i, e in enumerate(ev) if e.startswith("self.bits |="))
+                    ok = ok and final in ("B >> -diff | self.onehot >> -diff - 1", "self.onehot >> -diff - 1 | B >> -diff")
                 else:
-                    ok = ok and any(e == "self.bits = 0" for e in ev) and not any(e.startswith("self.bits |=") for e in ev)
+                    ok = ok and final == "0"
             ctx.check(ok, "C08.R4", ins, "nbits=%d %s: %s" % (nb, name, "shift by n then set index n-1" if want_shift else "window cleared"),
                       "advancing by n moves the old current number to offset n", witness=[repr(o) for o in outs][:2])
     # n = -diff
@@ -270,6 +281,28 @@ def r4(ctx):
     ctx.check(len(dd) == 1 and norm(dd[0].value) == "self.current_seqnum.diff(%s)" % ins.params[1], "C08.R4", ins, "diff := current_seqnum.diff(seqnum)", witness=[norm(x.value) for x in dd])
     # message window width vs. decode: only the packet window is sent in headers; message window is local
     ctx.check(W == 32, "C08.R4", init, "packet window width is 32 (the documented 32-bit ack bitmap)", witness=W)
+
+
+def bits_after(events):
+    """the value of self.bits after the window-motion events of one path, as an expression over its initial value B:
+    `self.bits >>= n; self.bits |= m`, `self.bits = (self.bits >> n) | m` and any other sequence of updates give one text"""
+    cur = ast.Name(id="B", ctx=ast.Load())
+
+    class _B(ast.NodeTransformer):
+        def visit_Attribute(self, node):
+            if ast.unparse(node) == "self.bits":
+                return ast.parse(ast.unparse(cur), mode="eval").body
+            return self.generic_visit(node)
+    for e in events:
+        try:
+            st = ast.parse(e).body[0]
+        except SyntaxError:
+            continue
+        if isinstance(st, ast.AugAssign) and ast.unparse(st.target) == "self.bits":
+            cur = ast.BinOp(left=cur, op=st.op, right=_B().visit(st.value))
+        elif isinstance(st, ast.Assign) and len(st.targets) == 1 and ast.unparse(st.targets[0]) == "self.bits":
+            cur = _B().visit(st.value)
+    return ast.unparse(ast.fix_missing_locations(ast.Expression(body=cur)).body)
 
 
 def _parents(node, stop):
